@@ -121,7 +121,22 @@ ControlFails(r, ep, j, X, pwmF, dt) ==
            ce == CtlEv(r, j) IN
        IF \E idx \in 1..Len(rules) : Cardinality(evs[idx]) # 1 THEN
           \* a rule that raised stops the evaluation of the later ones
-          IF \E idx \in 1..Len(rules) : \E e \in evs[idx] : e.raised # "" THEN {} ELSE {"RuleNotEvaluatedOnce"}
+          IF \E idx \in 1..Len(rules) : \E e \in evs[idx] : e.raised # "" THEN {}
+          ELSE {"RuleNotEvaluatedOnce"} \cup
+               \* the arbitration is judged all the same: a rule the implementation did not consult proposes what its documentation
+               \* says it proposes at this instant (where that is a single value): not asking a rule does not make it inapplicable
+               LET al(idx) == RuleAllowed(rules[idx], X, ep, j, dt)
+                   derivable(idx) == Cardinality(al(idx)) = 1 /\ al(idx) \cap {"any", "raise", "slc"} = {}
+                   known(idx) == Cardinality(evs[idx]) = 1 \/ (evs[idx] = {} /\ derivable(idx)) IN
+               IF ~(\A idx \in 1..Len(rules) : known(idx)) \/ Cardinality(ce) # 1 THEN {}
+               ELSE LET props == [idx \in 1..Len(rules) |-> IF Cardinality(evs[idx]) = 1 THEN (CHOOSE e \in evs[idx] : TRUE).ret
+                                                              ELSE CHOOSE a \in al(idx) : TRUE]
+                        c == CHOOSE c \in ce : TRUE IN
+                    IF ~(\A idx \in 1..Len(rules) : props[idx] = CNull \/ RIsNum(props[idx])) THEN {}
+                    ELSE LET arb == Arbitrate(props) IN
+                         IF arb.t = "conflict" THEN Failing({ <<"ArbConflictMustRaise", c.raised = "ValueError">> })
+                         ELSE Failing({ <<"ArbNoSpuriousError", c.raised = "">>,
+                                        <<"ArbDutyCycle", c.raised = "" => (RIsNum(c.pwm) /\ Cl(c.pwm, arb.v, Eps, "1"))>> })
        ELSE LET ev(idx) == CHOOSE e \in evs[idx] : TRUE
                 props == [idx \in 1..Len(rules) |-> ev(idx).ret]
                 arb == IF \A idx \in 1..Len(rules) : props[idx] = CNull \/ RIsNum(props[idx]) THEN Arbitrate(props) ELSE [t |-> "nonfinite"]
